@@ -9,8 +9,8 @@ def prop(pid, **kw):
     kw.setdefault('level', 'other'); kw.setdefault('assumptions', COMMON_ASSUME); kw.setdefault('floors', {})
     PROPS[pid] = kw
 
-prop('C01', rules=['C01.mask', 'rows', 'regions', 'defer_plan', 'visitset'], take=['C01.mask', 'C01.once', 'C01.levels', 'C05.cell', 'C03.visit-set'],
-     floors={'mask-sites:back': 1, 'mask-sites:back11': 1, 'mask-sites:backmp11': 1},
+prop('C01', rules=['C01.mask', 'rows', 'regions', 'defer_plan', 'visitset', 'plans'], take=['C01.mask', 'C01.once', 'C01.levels', 'C05.cell', 'C03.visit-set', 'C01.plan'],
+     floors={'mask-sites:back': 1, 'mask-sites:back11': 1, 'mask-sites:backmp11': 1, 'plan-table:back': 1, 'plan-table:back11': 1},
      explanation='Static rules over the type-checked instantiations of the dispatch code: C01.mask (no equality test on the handled enumerator of a result code).')
 prop('C12', rules=['C12.assign', 'catch', 'flag'], take=['C12.assign', 'C12.catch', 'C04.flag-exc', 'C04.flag-exit', 'C04.flag'],
      floors={'dispatch-site:back:do_process_helper': 1, 'dispatch-site:back11:do_process_helper': 1, 'dispatch-site:backmp11:process_event_internal': 1, 'dispatch-site:backmp11:process_completion_transition': 1},
@@ -87,3 +87,19 @@ prop('C15', rules=['copyser', 'copymp11', 'wiring'], take=['C15.fields', 'C15.po
 prop('C16', rules=['copyser'], take=['C16.fields'],
      floors={'serialize:back': 1, 'serialize:back11': 1, 'serialize_state:back': 1, 'serialize_state:back11': 1, 'serialize:history:NoHistoryImpl': 1, 'serialize:history:ShallowHistoryImpl': 1},
      explanation='Field coverage of serialization: serialize() archives the front-end base object and every data member of the machine except the documented unserialisable ones (queues, visitors, container pointer), each history policy archives all its members, serialize_state archives exactly the composite and do_serialize states. One serialize() serves both directions (Boost.Serialization operator&). Round-trip behaviour is not decided.')
+
+prop('C17', rules=['flags', 'visitset'], take=['C17.table', 'C17.pure', 'C17.visitor', 'C03.visit-set'],
+     floors={'init-flags:back': 1, 'init-flags:back11': 1, 'flag-fold:back': 1, 'flag-fold:back11': 1, 'flag-query:backmp11': 1, 'flag-visitor:flag_or': 1, 'flag-visitor-call:flag_or': 1,
+             'visit-set-with-submachines:1-pred': 1},
+     explanation='Flag tables: for every (state, flag) instantiation of the back/back11 table initialiser the installed handler equals the oracle recomputed from the state\'s declared flag_list / internal_flag_list (true / forward into a composite unless the flag is non-forwarding / false); is_flag_active is const, consults region 0 and folds regions 1..N-1 over the active ids only and writes no member; backmp11: the query is const and traverses the active configuration recursively, the OR / AND visitors start at false / true and set true / false, and the compile-time pruning sets are closed under nesting (C03.visit-set).')
+
+import rules_types
+prop('C14', rules=['rows', 'rowtags'], take=['C14.rows-exec', 'C14.rows', 'C14.puml'], static=[rules_types.puml_static],
+     floors={'front-row:state_machine_def.hpp:row': 1, 'front-row:state_machine_def.hpp:a_row': 1, 'front-row:state_machine_def.hpp:g_row': 1, 'front-row:state_machine_def.hpp:_row': 1,
+             'front-row:state_machine_def.hpp:irow': 1, 'front-row:state_machine_def.hpp:a_irow': 1, 'front-row:state_machine_def.hpp:g_irow': 1, 'front-row:state_machine_def.hpp:_irow': 1,
+             'front-row:functor_row.hpp:Row': 1, 'front-row:functor_row.hpp:Internal': 1, 'front-row:internal_row.hpp:a_internal': 1, 'front-row:internal_row.hpp:g_internal': 1,
+             'front-row:internal_row.hpp:internal': 1, 'front-row:internal_row.hpp:_internal': 1, 'tl-puml-asserts': 20, **FLOOR_EXT, **FLOOR_INT},
+     explanation='Front-end / back-end agreement: every front-end row class carries the tag matching the calls it provides (guard_call / action_call, Guard / Action typedefs, internal iff no target) (C14.rows); every executor instantiation calls the guard / action exactly when the row\'s tag says so and has a guard-reject path when the row has a guard (C14.rows-exec); PlantUML: a generated matrix of spellings of one transition line (1-4 dashes, padding, actions/guard in both orders, 0-3 actions, guard expressions with ! && || and one parenthesis level) must yield the row type of the canonical spelling, plus fixed expectations for parts and operator precedence, compiled as static_asserts with clang -fsyntax-only (C14.puml). This decides those strings, not the whole grammar.')
+prop('C18', rules=['casts', 'plans', 'queues'], take=['C18.cast', 'C01.plan', 'C04.target'],
+     floors={'cell-cast:back': 1, 'cell-cast:back11': 1, 'plan-table:back': 1, 'plan-table:back11': 1, 'stored-callable:back:MSGQ': 1, 'stored-callable:back11:MSGQ': 1},
+     explanation='Event matching: for every instantiated back/back11 runtime-speed dispatch table the candidates installed per state equal the rows allowed by "same type, public base, or Kleene" in table priority order, recomputed from the front-end declarations (C01.plan); no executor is called through a cell signature with a different event class unless the trigger is on the primary-base chain of the event (C18.cast); queued / deferred events are stored by value (C04.target). Payload through user conversions is not decided.')
